@@ -18,11 +18,13 @@ import (
 	"bytes"
 	"context"
 	"database/sql"
+	"database/sql/driver"
 	"encoding/binary"
 	"errors"
 	"fmt"
 	"os"
 	"path/filepath"
+	"reflect"
 	"strings"
 	"testing"
 	"time"
@@ -209,6 +211,51 @@ func c06Trunc(s string) string {
 	return s
 }
 
+// c06WriteConnCheck guards the precondition everything in C06 rests on: SQLite
+// never checkpoints on its own. rqlite establishes it with PRAGMA
+// wal_autocheckpoint=0 on the single read-write connection. Two parts:
+//   - the setting as seen through the read-write pool right now must be 0;
+//   - if the pool is configured so that database/sql may replace that connection
+//     (idle time or lifetime limit), a connection opened exactly the way the pool
+//     would open a replacement (same driver, same DSN) must carry the setting too.
+//
+// Returns a description of the problem, or "".
+func c06WriteConnCheck(d *DB) (problem string, introspected bool) {
+	if n, err := d.GetCheckpointing(); err == nil && n != 0 {
+		return fmt.Sprintf("PRAGMA wal_autocheckpoint on the read-write connection is %d, not 0", n), true
+	}
+	v := reflect.ValueOf(d.rwDB).Elem()
+	idle, life := v.FieldByName("maxIdleTime"), v.FieldByName("maxLifetime")
+	if !idle.IsValid() || !life.IsValid() || idle.Kind() != reflect.Int64 || life.Kind() != reflect.Int64 {
+		return "", false
+	}
+	if idle.Int() <= 0 && life.Int() <= 0 {
+		return "", true // the pool keeps its connection for ever
+	}
+	conn, err := d.rwDB.Driver().Open(d.rwDSN)
+	if err != nil {
+		return "", false
+	}
+	defer conn.Close()
+	q, ok := conn.(driver.QueryerContext)
+	if !ok {
+		return "", false
+	}
+	rows, err := q.QueryContext(context.Background(), "PRAGMA wal_autocheckpoint", nil)
+	if err != nil {
+		return "", false
+	}
+	defer rows.Close()
+	dest := make([]driver.Value, 1)
+	if err := rows.Next(dest); err != nil {
+		return "", false
+	}
+	if n, ok := dest[0].(int64); ok && n != 0 {
+		return fmt.Sprintf("the read-write pool may replace its connection (max idle time %s, max lifetime %s) and a replacement connection has wal_autocheckpoint=%d: SQLite will checkpoint and restart the WAL behind the checkpoint manager's back", time.Duration(idle.Int()), time.Duration(life.Int()), n), true
+	}
+	return "", true
+}
+
 func TestVerif_C06_Schedules(t *testing.T) {
 	rec := vstat.New(t, "C06", "schedules",
 		"schedules of up to 16 (thorough 28) steps over a WAL-mode database opened with OpenSwappable: write transaction (insert 1-300 rows / update / delete / big transaction that fails and is rolled back, optionally with a small page cache so that it spills to the WAL), start reader (independent read-only connection holding BEGIN+SELECT, or an rqlite ForceStall query), stop reader, incremental checkpoint attempt SwappableDB.Checkpoint(w, timeout) with the store's keep rule (segment kept iff err==nil; skipped when the WAL file is empty, as the store does), occasional full attempt Checkpoint(nil) that re-bases the mirror. Every schedule ends with all readers stopped and a final attempt. Non-trivial = an attempt that failed or moved all pages without truncating the WAL, followed by write(s) and a later kept attempt. Distinct = the operation sequence with the outcome of each attempt.")
@@ -230,12 +277,24 @@ func TestVerif_C06_Schedules(t *testing.T) {
 		}
 		e.sdb = sdb
 		walPath := e.path + "-wal"
+		if problem, ok := c06WriteConnCheck(sdb.db); problem != "" {
+			rt.Fatalf("%s", rec.Violation("C06/sqlite-may-checkpoint-on-its-own", "%s", problem))
+		} else if !ok {
+			rec.Label("skip:pool-introspection-unavailable")
+		}
 		var ops []string
 		note := func(format string, a ...any) { ops = append(ops, fmt.Sprintf(format, a...)) }
 
-		if msg, err := e.exec(false, c06Stmt("CREATE TABLE t(id INTEGER PRIMARY KEY, k INT, v BLOB)"), c06Stmt("CREATE INDEX t_k ON t(k)")); err != nil || msg != "" {
+		// several tables so that different write transactions can touch disjoint pages
+		// (a frame lost from a segment is only visible if no later write rewrites its page)
+		if msg, err := e.exec(false,
+			c06Stmt("CREATE TABLE t(id INTEGER PRIMARY KEY, k INT, v BLOB)"), c06Stmt("CREATE INDEX t_k ON t(k)"),
+			c06Stmt("CREATE TABLE t1(id INTEGER PRIMARY KEY, k INT, v BLOB)"),
+			c06Stmt("CREATE TABLE t2(id INTEGER PRIMARY KEY, k INT, v BLOB)"),
+			c06Stmt("CREATE TABLE t3(id INTEGER PRIMARY KEY, k INT, v BLOB)")); err != nil || msg != "" {
 			rt.Skipf("schema: %v %s", err, msg)
 		}
+		tables := []string{"t", "t1", "t2", "t3"}
 		if rapid.IntRange(0, 5).Draw(rt, "small-cache") == 0 {
 			// a small page cache makes big transactions spill to the WAL before they end
 			e.exec(false, c06Stmt("PRAGMA cache_size=5"))
@@ -245,6 +304,10 @@ func TestVerif_C06_Schedules(t *testing.T) {
 		var init []*command.Statement
 		for i := 0; i < nInit; i++ {
 			init = append(init, c06Stmt("INSERT INTO t(k,v) VALUES(?,?)", e.nextK, e.blob(30)))
+			e.nextK++
+		}
+		for _, tb := range tables[1:] {
+			init = append(init, c06Stmt("INSERT INTO "+tb+"(k,v) VALUES(?,?)", e.nextK, e.blob(20)))
 			e.nextK++
 		}
 		if len(init) > 0 {
@@ -273,6 +336,7 @@ func TestVerif_C06_Schedules(t *testing.T) {
 		// model of what an observer knows: was the previous kept attempt one that
 		// left the WAL in place (all pages moved, not truncated), and with which salt
 		armed := false
+		armedFrames := 0
 		var armedSalt [2]uint32
 		var attempts []c06Attempt
 		writes := 0
@@ -374,6 +438,9 @@ func TestVerif_C06_Schedules(t *testing.T) {
 				case errors.Is(err, ErrDatabaseCheckpointBusy):
 					note("ckpt:busy")
 					rec.Label("attempt:busy(partial-move)")
+					if resumed && meta != nil && meta.Moved > armedFrames && meta.Moved < meta.Pages {
+						rec.Label("attempt:busy-while-resuming(moved-past-resume-point)")
+					}
 					if len(e.readers) == 0 {
 						rec.Label("attempt:busy-without-reader")
 					}
@@ -403,7 +470,7 @@ func TestVerif_C06_Schedules(t *testing.T) {
 					fail("C06/kept-but-not-all-moved", "attempt returned err=nil with %s", meta)
 					return
 				}
-				armed, armedSalt = true, salt
+				armed, armedSalt, armedFrames = true, salt, meta.Pages
 				rec.Label("attempt:kept(all-moved,not-truncated)")
 			} else {
 				armed = false
@@ -433,7 +500,11 @@ func TestVerif_C06_Schedules(t *testing.T) {
 		for step := 0; step < nSteps && violation == nil; step++ {
 			op := rapid.SampledFrom([]string{"write", "write", "write", "write", "write", "start", "start", "start", "stop", "stop", "stopall", "ckpt", "ckpt", "ckpt", "ckpt", "start+ckpt", "start+ckpt"}).Draw(rt, "op")
 			alsoCkpt := false
-			if armed && rapid.IntRange(0, 3).Draw(rt, "release-and-write") == 0 {
+			steer := "none"
+			if armed {
+				steer = rapid.SampledFrom([]string{"none", "none", "none", "release-write", "handover", "handover"}).Draw(rt, "armed-steer")
+			}
+			if steer == "release-write" {
 				// the WAL was left in place by the previous attempt: once every reader
 				// is gone the next write restarts the WAL from the beginning (new salt)
 				for id := 0; id < 3; id++ {
@@ -441,6 +512,47 @@ func TestVerif_C06_Schedules(t *testing.T) {
 				}
 				note("stopall")
 				op = "write"
+			}
+			if steer == "handover" && len(e.readers) > 0 && len(e.readers) < 3 {
+				// the WAL was left in place and a reader is still on it: a small write is
+				// appended, a second reader starts behind it, the first one leaves, another
+				// small write goes to a different table, and the next attempt can only move
+				// the frames up to the second reader's mark (resuming attempt that is busy
+				// with old resume point < moved < pages)
+				ta := rapid.IntRange(0, len(tables)-1).Draw(rt, "handover-table-a")
+				tb := (ta + 1 + rapid.IntRange(0, len(tables)-2).Draw(rt, "handover-table-b")) % len(tables)
+				writes++
+				e.exec(true, c06Stmt("INSERT INTO "+tables[ta]+"(k,v) VALUES(?,?)", e.nextK, e.blob(12)))
+				e.nextK++
+				old := []int{}
+				for id := 0; id < 3; id++ {
+					if e.readers[id] != nil {
+						old = append(old, id)
+					}
+				}
+				nid := 0
+				for e.readers[nid] != nil {
+					nid++
+				}
+				if raw, err := vsql.Open(e.path, "mode=ro"); err == nil {
+					var n int
+					_, err1 := raw.Exec("BEGIN")
+					err2 := raw.QueryRow("SELECT count(*) FROM t").Scan(&n)
+					if err1 != nil || err2 != nil {
+						raw.Close()
+					} else {
+						e.readers[nid] = &c06Reader{kind: "raw", raw: raw}
+					}
+				}
+				for _, id := range old {
+					e.stopReader(id)
+				}
+				writes++
+				e.exec(true, c06Stmt("INSERT INTO "+tables[tb]+"(k,v) VALUES(?,?)", e.nextK, e.blob(12)))
+				e.nextK++
+				note("handover(ins %s; start%d; stop%v; ins %s)", tables[ta], nid, old, tables[tb])
+				rec.Label("steer:reader-handover-between-writes")
+				op = "ckpt"
 			}
 			if op == "start+ckpt" {
 				// a reader that starts right before the attempt pins the end of the WAL:
@@ -451,6 +563,7 @@ func TestVerif_C06_Schedules(t *testing.T) {
 			case "write":
 				writes++
 				kind := rapid.SampledFrom([]string{"insert", "insert", "insert", "insert", "update", "update", "delete", "fail-big"}).Draw(rt, "write-kind")
+				tbl := rapid.SampledFrom([]string{"t", "t", "t1", "t2", "t3"}).Draw(rt, "table")
 				switch kind {
 				case "insert":
 					n := rapid.SampledFrom([]int{1, 1, 2, 5, 20, 80, 300}).Draw(rt, "rows")
@@ -460,20 +573,20 @@ func TestVerif_C06_Schedules(t *testing.T) {
 					}
 					var st []*command.Statement
 					for i := 0; i < n; i++ {
-						st = append(st, c06Stmt("INSERT INTO t(k,v) VALUES(?,?)", e.nextK, e.blob(bl)))
+						st = append(st, c06Stmt("INSERT INTO "+tbl+"(k,v) VALUES(?,?)", e.nextK, e.blob(bl)))
 						e.nextK++
 					}
 					e.exec(true, st...)
-					note("ins(%d,%d)", n, bl)
+					note("ins(%s,%d,%d)", tbl, n, bl)
 				case "update":
 					m := rapid.IntRange(1, 4).Draw(rt, "modulus")
 					bl := rapid.SampledFrom([]int{0, 50, 2000}).Draw(rt, "bloblen")
-					e.exec(true, c06Stmt(fmt.Sprintf("UPDATE t SET v=?, k=k+100000 WHERE id%%%d=0", m), e.blob(bl)))
-					note("upd(%%%d,%d)", m, bl)
+					e.exec(true, c06Stmt(fmt.Sprintf("UPDATE %s SET v=?, k=k+100000 WHERE id%%%d=0", tbl, m), e.blob(bl)))
+					note("upd(%s,%%%d,%d)", tbl, m, bl)
 				case "delete":
 					m := rapid.IntRange(2, 5).Draw(rt, "modulus")
-					e.exec(true, c06Stmt(fmt.Sprintf("DELETE FROM t WHERE id%%%d=0", m)))
-					note("del(%%%d)", m)
+					e.exec(true, c06Stmt(fmt.Sprintf("DELETE FROM %s WHERE id%%%d=0", tbl, m)))
+					note("del(%s,%%%d)", tbl, m)
 				case "fail-big":
 					// a transaction whose last statement fails: everything is rolled back
 					n := rapid.SampledFrom([]int{5, 40, 150}).Draw(rt, "rows")
@@ -571,6 +684,9 @@ func TestVerif_C06_Schedules(t *testing.T) {
 			}
 			note("stopall")
 			attempt(true)
+			if problem, _ := c06WriteConnCheck(sdb.db); problem != "" && violation == nil {
+				fail("C06/sqlite-may-checkpoint-on-its-own", "at the end of the schedule: %s", problem)
+			}
 			if n := len(attempts); n > 0 && attempts[n-1].failed && !sawOpenTxError {
 				rec.Label("final-attempt-failed-without-readers")
 			}
@@ -597,4 +713,105 @@ func TestVerif_C06_Schedules(t *testing.T) {
 			violation()
 		}
 	})
+}
+
+// TestVerif_C06_Quiet (thorough tier only): the behavioural counterpart of
+// c06WriteConnCheck. The database sits idle for longer than any plausible pool
+// idle limit (35 s), then more than 1000 WAL frames are written in a few
+// transactions (SQLite's default auto-checkpoint threshold), then a small write,
+// then an incremental attempt without readers. If SQLite checkpointed on its own
+// in between, a whole WAL generation is missing from the segment and the mirror
+// differs. One scenario per process; the variant (armed or not before the quiet
+// period, sizes) derives from the process seed.
+func TestVerif_C06_Quiet(t *testing.T) {
+	if !vstat.Thorough() {
+		t.Skip("thorough tier only (needs a 35 s quiet period)")
+	}
+	rec := vstat.New(t, "C06", "quiet",
+		"one scenario per process: open (OpenSwappable), initial full snapshot, optional 'all moved, WAL left in place' attempt with a reader at the WAL end, 35 s without any database activity, then 3 transactions of 450-600 rows x 4000-byte blobs (>1000 WAL frames), a small write to another table, an incremental attempt without readers; mirror (base + kept segments applied by SQLite) must equal the live database and wal_autocheckpoint must still be 0 on the write path. Non-trivial = always (the quiet period and >1000 frames are the point). Distinct = variant.")
+	seed := vstat.Seed()
+	armedFirst := seed%2 == 0
+	rows := 450 + int(seed%4)*50
+	dir := t.TempDir()
+	e := &c06Env{dir: dir, path: filepath.Join(dir, "live.db"), mirror: filepath.Join(dir, "mirror.db"), readers: map[int]*c06Reader{}, rnd: seed | 1}
+	defer e.close()
+	sdb, err := OpenSwappable(e.path, nil, false, true, 0)
+	if err != nil {
+		t.Skipf("open: %v", err)
+	}
+	e.sdb = sdb
+	desc := fmt.Sprintf("armed-before-quiet=%v rows-per-tx=%d", armedFirst, rows)
+	rec.Case(true, desc)
+	rec.Sample(desc)
+	e.exec(false, c06Stmt("CREATE TABLE t(id INTEGER PRIMARY KEY, k INT, v BLOB)"), c06Stmt("CREATE TABLE t1(id INTEGER PRIMARY KEY, k INT, v BLOB)"))
+	e.exec(true, c06Stmt("INSERT INTO t(k,v) VALUES(1,x'00')"), c06Stmt("INSERT INTO t1(k,v) VALUES(1,x'00')"))
+	if meta, _, err := sdb.Checkpoint(nil, 2*time.Second); err != nil || !meta.Success() {
+		t.Skipf("initial full snapshot: %v", err)
+	}
+	if err := vsql.CopyFile(e.path, e.mirror); err != nil {
+		t.Skipf("copy: %v", err)
+	}
+	keep := func(what string) bool {
+		var seg bytes.Buffer
+		_, _, err := sdb.Checkpoint(&seg, 2*time.Second)
+		if err != nil {
+			rec.Label("attempt-failed:" + what)
+			t.Logf("%s attempt failed: %v", what, err)
+			return false
+		}
+		if err := c06ApplySegment(e.mirror, seg.Bytes()); err != nil {
+			t.Errorf("%s", rec.Violation("C06/segment-rejected", "quiet scenario (%s): SQLite cannot apply kept segment: %v", desc, err))
+			return false
+		}
+		return true
+	}
+	if armedFirst {
+		e.exec(true, c06Stmt("INSERT INTO t(k,v) VALUES(2,x'01')"))
+		raw, err := vsql.Open(e.path, "mode=ro")
+		if err == nil {
+			var n int
+			raw.Exec("BEGIN")
+			raw.QueryRow("SELECT count(*) FROM t").Scan(&n)
+			var seg bytes.Buffer
+			if _, _, err := sdb.Checkpoint(&seg, 15*time.Millisecond); err == nil {
+				c06ApplySegment(e.mirror, seg.Bytes())
+				rec.Label("armed-before-quiet")
+			}
+			raw.Exec("ROLLBACK")
+			raw.Close()
+		}
+	}
+	time.Sleep(35 * time.Second) // stimulus only; never a correctness signal
+	for tx := 0; tx < 3; tx++ {
+		var st []*command.Statement
+		for i := 0; i < rows; i++ {
+			st = append(st, c06Stmt("INSERT INTO t(k,v) VALUES(?,?)", 1000*tx+i, e.blob(4000)))
+		}
+		e.exec(true, st...)
+	}
+	e.exec(true, c06Stmt("INSERT INTO t1(k,v) VALUES(7,x'07')"))
+	if _, size, _ := c06ReadSalt(e.path + "-wal"); size > 0 {
+		if !keep("after-quiet") {
+			return
+		}
+	}
+	md, err1 := c06Dump(e.mirror)
+	ld, err2 := c06Dump(e.path, "mode=ro")
+	if err1 != nil {
+		t.Errorf("%s", rec.Violation("C06/mirror-unreadable", "quiet scenario (%s): %v", desc, err1))
+		return
+	}
+	if err2 != nil {
+		rec.Label("skip:live-dump-error")
+		return
+	}
+	if md != ld {
+		t.Errorf("%s", rec.Violation("C06/mirror-diverges/after-quiet-period", "after 35 s without activity and >1000 frames of writes the database rebuilt from base + kept segments differs from the live database (%s): %s", desc, c06FirstLineDiff(md, ld)))
+		return
+	}
+	rec.Label("quiet:mirror-equal")
+	if problem, _ := c06WriteConnCheck(sdb.db); problem != "" {
+		t.Errorf("%s", rec.Violation("C06/sqlite-may-checkpoint-on-its-own", "after the quiet period: %s", problem))
+		return
+	}
 }
